@@ -412,6 +412,23 @@ class SeriesOps:
                 return list(obj.values())
             if name in ("update", "setdefault", "pop", "clear", "popitem"):
                 self.log("dict-mutation", node, what=name, args=[to_term(p) for p in pos])
+                prim_ = lambda k_: isinstance(k_, (str, int, float, bool)) or k_ is None or (isinstance(k_, tuple) and len(k_) == 2 and k_[0] == "const")
+                known_ = not any(isinstance(k_, tuple) and k_ and k_[0] == "each" for k_ in obj)
+                if name in ("setdefault", "pop") and pos and I.run.loop_depth == 0 and known_ and prim_(pos[0]):
+                    # a dict with known keys handled outside any symbolic loop, asked about a known key: what the dict does
+                    hk = I._hashable(pos[0])
+                    if name == "setdefault":
+                        if hk not in obj:
+                            obj[hk] = pos[1] if len(pos) > 1 else None
+                        return obj[hk]
+                    if hk in obj:
+                        return obj.pop(hk)
+                    if len(pos) > 1:
+                        return pos[1]
+                    raise AnalysisError("dict.pop of a key that is not there")
+                if name == "clear" and I.run.loop_depth == 0:
+                    obj.clear()
+                    return None
                 if name == "update" and pos and isinstance(pos[0], dict):
                     obj.update(pos[0])
                 elif name == "update" and pos and I._concrete_seq(pos[0]) is not None and all(isinstance(x, PyTuple) and len(x.items) == 2 for x in I._concrete_seq(pos[0])):
